@@ -35,7 +35,7 @@ def is_base_relative(term):
 def abs_render_transparent(term):
     """renderings that keep the absolute path: Path::display() + to_string(), normalize_path"""
     nm = C.callee_name(term)
-    if nm in ("txtpp::fs::path::normalize_path", "std::path::Path::display", "std::path::Path::to_str", "std::path::Path::to_string_lossy",
+    if nm in (ROLE["normalize_path"], "std::path::Path::display", "std::path::Path::to_str", "std::path::Path::to_string_lossy",
               "std::path::PathBuf::into_os_string", "std::path::Path::as_os_str"):
         return True
     ts = to_string_of(term)
@@ -69,7 +69,7 @@ def r17_1(ctx):
             ctx.violation([b.name, "cwd-origin"], "the working directory of run commands does not derive from the source file's parent directory: %s" % (
                 [l.describe() for l in leaves][:5]), site=site)
     # general form: a base-relative rendering never reaches a path-taking API
-    pv2 = Fl.Prov(lib, extra_transparent=ABSPATH_VIEWS, transparent_fn=lambda t: C.callee_name(t) == "txtpp::fs::path::normalize_path")
+    pv2 = Fl.Prov(lib, extra_transparent=ABSPATH_VIEWS, transparent_fn=lambda t: C.callee_name(t) == ROLE["normalize_path"])
     n = 0
     for s in fs_inventory(ctx):
         if s.prog.label != "lib" or s.kind != "call" or getattr(s, "path_arg", None) is None:
